@@ -263,6 +263,18 @@ pub fn gen_registry_world(tape: &mut Tape, cfg: &RegGenCfg) -> World {
         t.items.push(Item::new(Form::SideEffect, "./gone_below_template.ts"));
         files.insert("/template.ts".to_string(), t);
       }
+      if tape.draw(Stream::World, 6) == 5 {
+        // a sibling script imported at source phase only (an asset load
+        // without a `type` attribute): an external entry, never a module
+        // built from what the manifest says about it
+        modd.items.push(Item::new(Form::Source, "./phase.ts"));
+        let mut t = ModuleDesc::new("", Lang::Ts);
+        if has_util {
+          t.items.push(Item::new(Form::SideEffect, "./util.ts"));
+        }
+        t.items.push(Item::new(Form::SideEffect, "./gone_below_phase.ts"));
+        files.insert("/phase.ts".to_string(), t);
+      }
       // richer files: the remaining fields of the module information
       if tape.draw(Stream::World, 2) == 1 {
         let mut r = ModuleDesc::new("", Lang::Tsx);
